@@ -14,7 +14,7 @@ func init() {
 		ID: "C12", Fn: c12,
 		Rule:        "one evaluation = one judged protocol step of a generated protocol-valid UCI session fed to the real UciHandler.Loop through pipes (every line sent/received time-stamped): exactly one bestmove per go at every quiescent point; no bestmove of an infinite/ponder search before its stop (or ponderhit); final 'info depth' == limit for depth searches; readyok for every isready also while searching; bestmove after stop within allowance; handler position (verif accessor) == refchess replay of the position command; go depth after ucinewgame == same go on a fresh handler; Print Config before/after every setoption differs in exactly the named field; sessions include zero-delay go-after-bestmove, stop right after go, isready storms, ponderhit early/late; distinct = distinct (session, step) scripts",
 		Assumptions: []string{"fresh engine for the ucinewgame clause = a newly created UciHandler in the same process (configuration is process-global)", "stop-promptness allowance 700 ms under parallel load, exceedances re-run serially"},
-		Required:    []string{"sessions", "go_commands", "bestmoves", "go_depth", "go_infinite", "go_ponder_stop", "go_ponderhit", "go_movetime", "go_clock", "isready_during_search", "position_checks", "position_with_moves", "newgame_equalities", "setoption_checks", "zero_delay_go_after_bestmove", "stop_right_after_go"},
+		Required:    []string{"sessions", "go_commands", "bestmoves", "go_depth", "go_infinite", "go_ponder_stop", "go_ponderhit", "go_ponder_without_clock", "go_movetime", "go_clock", "isready_during_search", "position_checks", "position_with_moves", "newgame_equalities", "setoption_checks", "zero_delay_go_after_bestmove", "stop_right_after_go"},
 		MinEvals:    2000,
 		TimeoutQ:    25 * 60e9,
 		TimeoutT:    150 * 60e9,
@@ -37,6 +37,8 @@ var optionNames = func() []string {
 	}
 	return uniqSorted(r)
 }()
+
+var c12Reproduced = map[string]bool{}
 
 type c12ctx struct {
 	c     *Ctx
@@ -74,7 +76,7 @@ func (x *c12ctx) expectBestmove(what string, timeout time.Duration) (string, []s
 		if dl {
 			x.rep.Viol("hang:no-bestmove:deadlock:"+sig, fmt.Sprintf("no bestmove after %s within %s; goroutine dump proves a deadlock (%s)", what, timeout, sig), x.payload(nil))
 		} else {
-			x.rep.Inconclusive(fmt.Sprintf("session %d: no bestmove after %s within %s (%s)", x.sid, what, timeout, sig))
+			x.rep.Inconclusive(fmt.Sprintf("session %d: no bestmove after %s within %s (%s) transcript: %s", x.sid, what, timeout, sig, strings.Join(x.u.transcript(14), " || ")))
 		}
 		x.dead = true
 	}
@@ -252,7 +254,105 @@ func (x *c12ctx) goInfinite() {
 	}
 }
 
+// ponder search without clock (depth / nodes limited or bare): after ponderhit the
+// limit has long been reached, so the bestmove is due. The verdict is an ordering
+// fact: search finished its limit, ponderhit sent, no bestmove until an extra stop.
+func (x *c12ctx) ponderNoClockScenario(u *uciSess, cmd string, d int) (string, bool) {
+	u.send(cmd)
+	if d > 0 {
+		u.waitFor(func(l string) bool {
+			g := reInfoDepth.FindStringSubmatch(l)
+			return g != nil && g[1] == strconv.Itoa(d) || isBestmove(l)
+		}, 20*time.Second)
+	}
+	time.Sleep(time.Duration(5+x.r.Intn(30)) * time.Millisecond)
+	if countBestmoves(u.poll()) > 0 {
+		return "premature", false
+	}
+	u.send("ponderhit")
+	_, ok, _ := u.waitFor(isBestmove, 5*time.Second)
+	if ok {
+		return "", true
+	}
+	u.send("stop")
+	_, ok2, _ := u.waitFor(isBestmove, 20*time.Second)
+	if ok2 {
+		return "bestmove-only-after-extra-stop", false
+	}
+	return "no-bestmove-at-all", false
+}
+
+func (x *c12ctx) goPonderNoClock() {
+	d := 0
+	var cmd string
+	switch x.r.Intn(3) {
+	case 0:
+		d = 1 + x.r.Intn(3)
+		cmd = fmt.Sprintf("go ponder depth %d", d)
+	case 1:
+		cmd = fmt.Sprintf("go ponder nodes %d", 50+x.r.Intn(3000))
+	default:
+		d = 1 + x.r.Intn(2)
+		cmd = fmt.Sprintf("go depth %d ponder", d)
+	}
+	if len(x.board.Legal()) < 2 {
+		return
+	}
+	x.goes++
+	x.rep.Inc("go_commands")
+	x.rep.Inc("go_ponder_without_clock")
+	x.rep.Eval(1)
+	what, ok := x.ponderNoClockScenario(x.u, cmd, d)
+	x.bests++ // exactly one bestmove was consumed by the scenario (or none: handled below)
+	if ok {
+		x.rep.Inc("bestmoves")
+		x.quiescent()
+		return
+	}
+	if what == "premature" {
+		x.rep.Viol("premature-bestmove:ponder-without-clock", fmt.Sprintf("%q sent bestmove before ponderhit/stop (%s)", cmd, x.board.FEN()), x.payload(nil))
+		x.quiescent()
+		return
+	}
+	if what == "no-bestmove-at-all" {
+		x.bests--
+		x.dead = true
+	}
+	// isolate and reproduce on fresh handlers (once per process and kind)
+	if c12Reproduced[what] {
+		x.rep.Viol("ponderhit:no-bestmove:"+what, fmt.Sprintf("%q on %s: the limit was reached and ponderhit was sent, but no bestmove followed within 5 s (%s)", cmd, x.board.FEN(), what), x.payload(map[string]interface{}{"command": cmd}))
+		if !x.dead {
+			x.quiescent()
+		}
+		return
+	}
+	rep := 0
+	for k := 0; k < 2; k++ {
+		f := newUciSess()
+		f.send("setoption name Use_Book value false")
+		f.send(x.posCmd)
+		f.sync(10 * time.Second)
+		if w, ok := x.ponderNoClockScenario(f, cmd, d); !ok && w != "premature" {
+			rep++
+		}
+		f.quit(5 * time.Second)
+	}
+	if rep == 2 {
+		c12Reproduced[what] = true
+		x.rep.Viol("ponderhit:no-bestmove:"+what, fmt.Sprintf("%q on %s: the limit was reached and ponderhit was sent, but no bestmove followed within 5 s (%s); reproduced on 2 fresh handlers", cmd, x.board.FEN(), what), x.payload(map[string]interface{}{"command": cmd}))
+	} else {
+		x.rep.Inconclusive(fmt.Sprintf("session %d: %q + ponderhit gave no bestmove within 5 s once (%s), not reproduced (%d/2)", x.sid, cmd, what, rep))
+	}
+	if !x.dead {
+		x.quiescent()
+	}
+}
+
 func (x *c12ctx) goPonder() {
+	if x.r.Chance(0.35) {
+		x.goPonderNoClock()
+		return
+	}
 	t := 400 + x.r.Intn(1200)
 	x.u.send(fmt.Sprintf("go ponder wtime %d btime %d", t, t))
 	x.goes++
